@@ -25,6 +25,7 @@ ASSUMPTIONS = [
 ]
 ANCHOR_FILES = ("src/pydrobert/speech/compute.py",)
 EXHAUSTIVE_PARTS = []
+SUITE_TESTS = ['tests/test_compute.py', 'tests/test_torch.py']  # the repository's own tests as an extra monitored workload (thorough tier)
 LEVEL_TEXT = (
     "Every in-scope SI compute_full call of the workload (~5e3 quick / ~6e4 thorough) is compared with an independent convolution-based reference, "
     "for all four float dtypes and lengths straddling 1-3 overlap-save blocks. Sampled exploration."
@@ -201,6 +202,10 @@ def plan(tier, seed):
 
 
 def run_shard(spec, rec):
+    if "suite" in spec:
+        from .. import suite
+
+        return suite.run(__name__.rsplit(".", 1)[-1], spec, rec)
     mon = SiMonitor(rec)
     mon.attach()
     for i in range(spec["a"], spec["b"]):
